@@ -579,6 +579,14 @@ def check_time_average(run, pkg):
             return sp.Symbol("t1", positive=True)
         if t == ts(0):
             return sp.Symbol("t0", positive=True)
+        # number of frames and the last frame's time step (forms that estimate the interval from the whole trajectory)
+        if t in (("attr", ("sym", "snapshots"), "nsnapshots"), ("call", "builtins.len", (("attr", ("sym", "snapshots"), "snapshots"),), ())):
+            return sp.Symbol("T", positive=True)
+        if t[0] == "attr" and t[2] == "timestep" and t[1] == ("sub", ("attr", ("sym", "snapshots"), "snapshots"), C(-1)):
+            return sp.Symbol("tl", positive=True)
+        if t[0] == "sub" and t[2] in (C(-1), C(0), C(1)) and any(x[0] == "comp" and x[2][0] == "attr" and x[2][2] == "timestep" for x in walk(t[1])) \
+                and any(x == ("attr", ("sym", "snapshots"), "snapshots") for x in walk(t[1])):
+            return sp.Symbol({-1: "tl", 0: "t0", 1: "t1"}[t[2][1]], positive=True)
         return None
     P, dt, t1, t0 = sp.symbols("P dt t1 t0", positive=True)
     q = P / ((t1 - t0) * dt)
@@ -655,11 +663,13 @@ def _not_floor_witness(gw, syms):
     """the extracted window-length form evaluated exactly at quotients well away from integers (no rounding-noise excuse):
     a value other than floor(q) is a definite difference"""
     P, dt, t1, t0 = syms
-    if gw.free_symbols - set(syms):
+    T_, tl_ = sp.Symbol("T", positive=True), sp.Symbol("tl", positive=True)
+    if gw.free_symbols - set(syms) - {T_, tl_}:
         return None
     for per, itv in ((sp.Rational(11, 2), 2), (sp.Rational(15, 2), 2), (sp.Rational(9, 4), 1), (sp.Rational(5, 2), 1), (sp.Rational(7, 2), 1)):
         try:
-            val = gw.subs({P: per, dt: sp.Rational(1, 100), t0: 0, t1: itv * 100})
+            # six evenly spaced frames: the last one is five intervals after the first
+            val = gw.subs({P: per, dt: sp.Rational(1, 100), t0: 0, t1: itv * 100, T_: 6, tl_: 5 * itv * 100})
             val = sp.nsimplify(val)
         except Exception:  # noqa
             return None
@@ -669,7 +679,8 @@ def _not_floor_witness(gw, syms):
             return None
         want = sp.floor(per / itv)
         if val != want:
-            return f"time_period={float(per)}, frame interval={float(itv)}: period/interval = {float(per / itv)} -> window of {val} frames, floor gives {want}"
+            return (f"time_period={float(per)}, frame interval={float(itv)}" + (" (six evenly spaced frames)" if gw.free_symbols & {T_, tl_} else "") +
+                    f": period/interval = {float(per / itv)} -> window of {val} frames, floor gives {want}")
     return None
 
 
